@@ -370,7 +370,7 @@ MANIFEST_TEXT = {
              "for every inventory (any length, ties, zero sizes) and every limit combination; enforce_store_limits clears exactly "
              "those paths and swallows OSError; reduce_size delegates once with the same arguments or does nothing.",
         note="Assumed: list.sort is a stable ascending permutation and sums are permutation-invariant; get_items sizes >= 0 is proved (FileSystemStoreBackend.get_items, os.path.getsize >= 0 assumed); "
-             "datetimes/timedeltas as reals; memstr_to_bytes only bounded-checked natively (integer literals exhaustively to 3000); "
+             "datetimes/timedeltas as reals; memstr_to_bytes proved against 'number x binary unit, truncated' with float(s) assumed = NUM(s) or ValueError (no float rounding; integer literals also checked natively to 3000); "
              "clear_location (rmtree) external. Native small-scope search is a replay aid, not counted as proof.",
     ),
 }
